@@ -165,6 +165,47 @@ theorem get_parentInvFill (src t : Repo) (m : List Rev) (p : Rev) :
   unfold parentInvFill
   exact get_filterMap_keyed (get src.invs) _ p
 
+theorem get_filter_ne {α β : Type} [DecidableEq α] (l : List (α × β)) (k q : α) :
+    C03.get (l.filter fun kv => !decide (kv.1 = k)) q = if q = k then none else C03.get l q := by
+  induction l with
+  | nil => simp [C03.get]
+  | cons x xs ih =>
+    obtain ⟨k', v⟩ := x
+    by_cases hk : k' = k
+    · subst hk
+      simp only [List.filter_cons, decide_true, Bool.not_true, Bool.false_eq_true, if_false, ih, C03.get]
+      by_cases hq : q = k'
+      · simp [hq]
+      · have : ¬ k' = q := fun h => hq h.symm
+        simp [hq, this]
+    · simp only [List.filter_cons, hk, decide_false, Bool.not_false, if_true, C03.get, ih]
+      by_cases hq : k' = q
+      · subst hq; simp [hk]
+      · simp [hq]
+
+theorem get_dedupKeys {α β : Type} [DecidableEq α] (l : List (α × β)) (q : α) :
+    C03.get (dedupKeys l) q = C03.get l q := by
+  induction l with
+  | nil => rfl
+  | cons x xs ih =>
+    obtain ⟨k, v⟩ := x
+    simp only [dedupKeys, C03.get, get_filter_ne, ih]
+    by_cases hq : k = q
+    · simp [hq]
+    · have : ¬ q = k := fun h => hq h.symm
+      simp [hq, this]
+
+theorem mem_dedupKeys {α β : Type} [DecidableEq α] {l : List (α × β)} {kv : α × β}
+    (h : kv ∈ dedupKeys l) : kv ∈ l := by
+  induction l with
+  | nil => cases h
+  | cons x xs ih =>
+    obtain ⟨k, v⟩ := x
+    simp only [dedupKeys, List.mem_cons, List.mem_filter] at h
+    rcases h with h | h
+    · exact h ▸ List.mem_cons_self
+    · exact List.mem_cons_of_mem _ (ih h.1)
+
 theorem get_singleton {α β : Type} [DecidableEq α] (k q : α) (v : β) :
     C03.get [(k, v)] q = if k = q then some v else none := by
   simp [C03.get]
